@@ -29,6 +29,7 @@ type ExploreStats struct {
 	Samples             []string
 	PerProp             map[string]int64 // invariant evaluations per property
 	DrainSteps          int64
+	MergeDeliveries     int64 // histories whose last event delivered the result of a merge job (C07 at service level)
 	PickPoints          int64 // transitions at which the service chose among several waiting tags
 	ForcedPicks         int64 // additional histories run to cover the choices it did not make by itself
 }
@@ -47,9 +48,10 @@ type result struct {
 	pathDesc string
 	// the last event started a tagging job and more than one tag was eligible: the tag the service
 	// picked and all eligible ones.  The explorer names the pick in the event and schedules the others.
-	pick  string
-	cands []string
-	retry bool // a named pick was not the one the service made in this run
+	pick           string
+	cands          []string
+	retry          bool // a named pick was not the one the service made in this run
+	mergeDelivered bool
 }
 
 // pcOf counts the api events of a path.
@@ -144,6 +146,7 @@ func run1(sc *Scenario, path []string, convBin string) (res result) {
 			return
 		}
 		if mergeApplied {
+			res.mergeDelivered = true
 			v := w.Mgr.GetView()
 			d, derr := ViewDigest(&v, false)
 			v.Release()
@@ -289,6 +292,9 @@ func Explore(sc *Scenario, convBin string, maxStates int64, deadline time.Time, 
 				mc.Fatal("scenario %s: %v", sc.Name, r.hardErr)
 			}
 			st.Transitions++
+			if r.mergeDelivered {
+				st.MergeDeliveries++
+			}
 			st.DrainSteps += int64(r.drained)
 			for _, v := range r.viol {
 				report(frontier[i].path, v)
